@@ -18,7 +18,15 @@ LEVEL = "exploration"
 
 def the_world():
     from vlib import worlds as W
-    return W.mixed_world(2, groups=False, multimappers=True)
+    w = W.mixed_world(2, groups=False, multimappers=True)
+    # a read with two records of the same span and strand but different exon structure (primary = isoform 1, secondary = isoform 2)
+    # (a start of its own: no record of another read lies between the two in any file)
+    e1, e2 = W.exons(1000, [0, 1, 2, 3, 4]), W.exons(1000, [0, 2, 3, 4])
+    e1[0][0] += 3
+    e2[0][0] += 3
+    w["reads"].append(W.read_of("eqspan", "chr1", e1))
+    w["reads"].append(W.read_of("eqspan", "chr1", e2, secondary=True))
+    return w
 
 
 def tree_diff(t0, t1, as_multiset=False):
@@ -113,13 +121,14 @@ def annotation_case(args):
     return args[:3] + (style,), errs
 
 
-CLASSES = 4
+CLASSES = 5
 
 
 def read_classes(w):
     """4 classes by locus, so that a BAM file can lack a whole locus / chromosome that another file covers:
        0 = chr1 gene locus at 1000, 1 = rest of chr1, 2 = chr2 gene locus at 1000, 3 = rest of chr2 + unmapped;
-       all records of one read name (multi-mapper pairs) stay in the class of the first record"""
+       primary records of one read name stay in the class of the first record, class 4 = all secondary records (a split by record, e.g.
+       by alignment flag or by region, separates the records of one read)"""
     cls = {}
     for r in w["reads"]:
         if r["name"] in cls:
@@ -130,6 +139,10 @@ def read_classes(w):
             first = r["blocks"][0][0]
             cls[r["name"]] = (0 if first < 4900 else 1) + (0 if r["chr"] == "chr1" else 2)
     return cls
+
+
+def record_class(cls, r):
+    return 4 if r.get("secondary") else cls[r["name"]]
 
 
 MULTISET_FILES = ("read_assignments.tsv", "corrected_reads.bed", "gene_counts.tsv", "gene_tpm.tsv", "transcript_counts.tsv", "transcript_tpm.tsv",
@@ -155,7 +168,7 @@ def bam_case(args):
     for assign, order in assigns:
         files = {}
         for r in w["reads"]:
-            files.setdefault(assign[cls[r["name"]]], []).append(r)
+            files.setdefault(assign[record_class(cls, r)], []).append(r)
         bams = []
         for fi in order:
             if fi not in files:
